@@ -98,7 +98,13 @@ pub fn generate(seed: u64, tier: &str, sink: &mut Sink) {
                     data.splice(at..at, inj);
                     replayed += 1;
                 }
-                let filename = if rng.chance(1, 2) { Some(gen_name(&mut rng)) } else { None };
+                // (file names with an extension everybody knows, next to a type that is not the one the extension
+                // suggests — or next to no type at all: the part then says application/octet-stream)
+                let filename = match rng.below(4) {
+                    0 => None,
+                    1 => Some(rng.pick(&["order.json", "notes.txt", "report.csv", "photo.PNG", "page.html", "archive.tar.gz", "a.b.xml"]).to_string()),
+                    _ => Some(gen_name(&mut rng)),
+                };
                 let mime = if rng.chance(1, 2) { Some(rng.pick(&["text/plain", "image/png", "application/x-custom+json", "text/plain; charset=utf-8", "application/octet-stream"]).to_string()) } else { None };
                 (gen_name(&mut rng), data, filename, mime)
             })
